@@ -117,6 +117,11 @@ def side_conditions(t):
             except SymPyException:
                 pos_exp = False
             res.append(('nonneg' if pos_exp else 'pos', t.arg1))
+        elif t.is_comb('tan', 1) or t.is_comb('sec', 1):
+            # tan x = sin x / cos x, sec x = 1 / cos x: quotients with x / 0 = 0
+            res.append(('nonzero', real.cos(t.arg)))
+        elif t.is_comb('cot', 1) or t.is_comb('csc', 1):
+            res.append(('nonzero', real.sin(t.arg)))
         for arg in t.args:
             res.extend(side_conditions(arg))
     return res
